@@ -8,6 +8,7 @@ package main
 import (
 	"context"
 	"fmt"
+	"sync/atomic"
 	"math/big"
 	"net"
 	"net/netip"
@@ -68,6 +69,9 @@ type travScen struct {
 	responders map[string]respRec // key id/ip/port -> latest data
 	reported   map[string]bool
 	dead       bool
+	stopCalled bool
+	stallCh    chan traversal.VerifSnapshot // the watcher's snapshot taken right after it received stalled
+	quit       chan struct{}
 }
 
 type respRec struct {
@@ -132,11 +136,19 @@ func (t *travScen) filter(a types.AddrMaybeId) bool {
 func (t *travScen) quiesce() (traversal.VerifSnapshot, bool) {
 	var snap traversal.VerifSnapshot
 	ok := waitFor(func() bool {
+		// The parked count is read BEFORE the snapshot: it only grows while a reply is being
+		// processed, so equality with a later snapshot's Outstanding means the released query has
+		// finished and every started query is parked (reading it after the snapshot could pair a
+		// stale snapshot with a newer count).
+		p := t.numParked()
 		snap = t.op.VerifSnapshot()
-		if snap.Stopping {
-			return snap.Outstanding == t.numParked()
+		if snap.Outstanding != p || t.numParked() != p {
+			return false
 		}
-		return snap.Outstanding == t.numParked() && (snap.Outstanding >= t.alpha || !snap.HaveQuery)
+		if snap.Stopping {
+			return true
+		}
+		return snap.Outstanding >= t.alpha || !snap.HaveQuery
 	}, 5*time.Second)
 	if ok && snap.Stopping && snap.Outstanding == 0 && !snap.Stopped {
 		// the stop waiter signals stopped asynchronously once nothing is outstanding
@@ -257,6 +269,9 @@ func (t *travScen) checkDiscipline() {
 func runTrav(r *Run) {
 	r.Result.Rule = "scenario = target, K in {1,2,3,8,16}, Alpha in {1,2,3,15}, a generated response graph of 5..40 nodes (silent, lying about their ID, duplicate IDs, one address listed under many IDs and across replies and seed sets, filtered addresses listed, ID-less seeds, tokens present/absent with a data filter) and a PRNG schedule releasing parked queries one at a time, with late AddNodes and Stop injected; after each release the operation is polled to quiescence, dumped and compared with the Lean model; non-trivial = graph in which some address is reported more than once or under several IDs"
 	n := r.n(500, 12000)
+	if r.Prop == "C03" {
+		r.staleOfferScenario()
+	}
 	for i := 0; i < n; i++ {
 		t := r.newTravScen(i)
 		t.play()
@@ -282,6 +297,14 @@ func (r *Run) newTravScen(i int) *travScen {
 			g.ip = r.randIP(1)
 		} else {
 			g.ip = r.randIP(0)
+		}
+		if j > 0 && r.rng.Intn(8) == 0 {
+			// same host, another port (and often the same ID): one machine behind several ports
+			o := list[r.rng.Intn(len(list))]
+			g.ip = o.ip
+			if r.rng.Intn(2) == 0 {
+				g.id = o.id
+			}
 		}
 		g.silent = r.rng.Intn(6) == 0
 		g.respID = g.id
@@ -374,11 +397,17 @@ func (t *travScen) addNodes(cs []cand) {
 	}
 	t.op_("TRAV addnodes "+candsArg(cs), t.dump(snap))
 	t.checkDiscipline()
+	// From here on a consumer waits on Stalled(), as every caller of the package does. It starts only
+	// now, after the run loop has taken up the seeds: a receive that races the very AddNodes into an
+	// idle lookup can be served a stale offer (known finding, see staleOfferScenario), which must
+	// not be confused with a stalled signal offered while queries are in flight.
+	t.startWatcher()
 }
 
 func (t *travScen) play() {
 	r := t.r.rng
 	defer func() {
+		close(t.quit)
 		// never leave goroutines parked
 		t.mu.Lock()
 		for k, p := range t.parked {
@@ -438,7 +467,12 @@ func (t *travScen) play() {
 	if !stopped {
 		// nothing parked: the lookup must report stalled
 		select {
-		case <-t.op.Stalled():
+		case snap := <-t.stallCh:
+			if snap.Outstanding > 0 || snap.HaveQuery {
+				t.viol("C03", "stalled reported while a query is in flight or an eligible contact is still unqueried")
+				t.viol("C02", "lookup reported stalled before the candidates of the last reply were taken up (result set incomplete)")
+				return
+			}
 			t.op_("TRAV stalled", "ok")
 			t.oracleStalled()
 		case <-time.After(5 * time.Second):
@@ -464,6 +498,8 @@ func (t *travScen) play() {
 }
 
 func (t *travScen) stop() {
+	// when the run loop exits it closes the stalled channel: receives after Stop mean nothing
+	t.stopCalled = true
 	t.op.Stop()
 	t.ev("Stop")
 	// every in-flight query's context is cancelled
@@ -538,6 +574,16 @@ func (t *travScen) release(key string, p *parkedQ) {
 		t.viol("C03", "traversal did not reach quiescence after a query returned (lost wake-up?)")
 		t.dead = true
 		return
+	}
+	if t.numParked() > 0 && !t.stopCalled {
+		select {
+		case ps := <-t.stallCh:
+			t.viol("C03", fmt.Sprintf("stalled reported while queries are in flight (outstanding=%d at the time)", ps.Outstanding))
+			t.viol("C02", "lookup reported stalled before the candidates of a reply were taken up (a caller stopping here gets an incomplete result set)")
+			t.dead = true
+			return
+		default:
+		}
 	}
 	els, _, _ := t.closestList()
 	obs := strings.Join(els, ",")
@@ -631,3 +677,68 @@ func (t *travScen) oracleStalled() {
 }
 
 var _ = generics.Some[int]
+
+// A consumer waits on Stalled() from the moment the seeds are in, as every caller of the package
+// does (Start, AddNodes, then <-Stalled()): a stalled signal offered too early is then really received.
+func (t *travScen) startWatcher() {
+	if t.stallCh != nil {
+		return
+	}
+	t.stallCh = make(chan traversal.VerifSnapshot, 1)
+	t.quit = make(chan struct{})
+	go func(op *traversal.Operation) {
+		select {
+		case <-op.Stalled():
+			t.stallCh <- op.VerifSnapshot()
+		case <-t.quit:
+		}
+	}(t.op)
+}
+
+// KNOWN FINDING (C03): the run loop computes its stalled offer under the lock but hands it over in a
+// select together with the wake-up channel. If contacts are added to an idle lookup (AddNodes
+// returns) and a consumer then starts to receive from Stalled() before the run loop goroutine has
+// been scheduled again, both select cases are ready and Go picks one at random: stalled is
+// reported although a contact that passes the filter has just been learned and not been queried.
+// The receive below starts strictly after AddNodes has returned.
+func (r *Run) staleOfferScenario() {
+	hits, tries := 0, r.n(400, 4000)
+	for i := 0; i < tries; i++ {
+		block := make(chan struct{})
+		op := traversal.Start(traversal.OperationInput{
+			Target: krpc.ID(r.randID()),
+			DoQuery: func(ctx context.Context, a krpc.NodeAddr) traversal.QueryResult {
+				<-block
+				return traversal.QueryResult{}
+			},
+		})
+		time.Sleep(30 * time.Microsecond) // the run loop is asleep, offering stalled: nothing to do yet
+		var added atomic.Bool
+		got := make(chan bool, 1)
+		go func() {
+			for !added.Load() {
+			}
+			select {
+			case <-op.Stalled():
+				got <- true
+			case <-time.After(200 * time.Microsecond):
+				got <- false
+			}
+		}()
+		na := krpc.NodeAddr{IP: net.IP{10, 0, byte(i >> 8), byte(i)}, Port: 1000 + i%1000}
+		op.AddNodes([]types.AddrMaybeId{{Addr: na.ToNodeAddrPort()}})
+		added.Store(true)
+		if <-got {
+			hits++
+		}
+		close(block)
+		op.Stop()
+		<-op.Stopped()
+	}
+	r.hist(fmt.Sprintf("stale-stalled-offer/hits-in-%d-tries", tries))
+	r.note(fmt.Sprintf("stale stalled offer reproduced in %d of %d tries", hits, tries))
+	if hits > 0 {
+		r.violation("stale stalled offer: stalled received after AddNodes into an idle lookup had returned, before the added contact was queried",
+			map[string]interface{}{"history": []string{"Start (run loop sleeps, offering stalled)", "AddNodes([x]) returns", "receive from Stalled() begins", "stalled is delivered; x has not been queried"}, "hits": hits, "tries": tries})
+	}
+}
